@@ -103,29 +103,6 @@ class World(BaseWorld):
                 o.update(a=ro.randrange(r), b=ro.randrange(r), scalar=ro.random() < 0.2)
             elif k == 'badtype':
                 o.update(which=ro.choice(['get', 'set']), pos=ro.randrange(2), a=ro.randrange(r), bad=ro.choice(BADKEYS))
-            elif k == 'index_api':
-                Lc = A['model'].shape[0]
-                li = op['l'] % Lc
-                if op['which'] == 'get':
-                    got = lib('get', A['ma'].get, op['a'], op['b'])
-                    if not np.array_equal(np.asarray(got), np.asarray(A['ma'].data)[:, op['a'], op['b']]):
-                        raise Violation('get_by_index_wrong_slice', 'get', {'index': [op['a'], op['b']]}, step)
-                elif op['which'] == 'getMatrix':
-                    got = lib('getMatrix', A['ma'].getMatrix, li)
-                    if not np.array_equal(np.asarray(got), np.asarray(A['ma'].data)[li]):
-                        raise Violation('getMatrix_wrong_matrix', 'getMatrix', {'index': li}, step)
-                else:
-                    val = gen_data((seed, 'setM', step), 1, r)[0]
-                    lib('setMatrix', A['ma'].setMatrix, li, np.copy(val))
-                    A['model'] = np.copy(A['model'])
-                    A['model'][li] = val
-                    unchanged(before, snap(), {n for n, e in enumerate(pool) if e['ma'] is A['ma']}, 'setMatrix', step)
-                    check_entry(A, 'setMatrix', step)
-                    if not np.array_equal(np.asarray(A['ma'].data)[li], val):
-                        raise Violation('setMatrix_did_not_write', 'setMatrix', {'index': li}, step)
-                if op['which'] != 'setMatrix':
-                    unchanged(before, snap(), set(), op['which'], step)
-                ctx.probe('index_api_' + op['which'])
             elif k == 'new_identity':
                 o.update(space=ro.choice(SPACES))
             ops.append(o)
@@ -435,6 +412,29 @@ class World(BaseWorld):
                     must_raise('setitem_unknown', (ValueError,), A['ma'].__setitem__, tuple(key), 1.0)
                     unchanged(before, snap(), set(), 'setitem_unknown', step)
                 ctx.probe('unknown_type_' + op['which'])
+            elif k == 'index_api':
+                Lc = A['model'].shape[0]
+                li = op['l'] % Lc
+                if op['which'] == 'get':
+                    got = lib('get', A['ma'].get, op['a'], op['b'])
+                    if not np.array_equal(np.asarray(got), np.asarray(A['ma'].data)[:, op['a'], op['b']]):
+                        raise Violation('get_by_index_wrong_slice', 'get', {'index': [op['a'], op['b']]}, step)
+                elif op['which'] == 'getMatrix':
+                    got = lib('getMatrix', A['ma'].getMatrix, li)
+                    if not np.array_equal(np.asarray(got), np.asarray(A['ma'].data)[li]):
+                        raise Violation('getMatrix_wrong_matrix', 'getMatrix', {'index': li}, step)
+                else:
+                    val = gen_data((seed, 'setM', step), 1, r)[0]
+                    lib('setMatrix', A['ma'].setMatrix, li, np.copy(val))
+                    A['model'] = np.copy(A['model'])
+                    A['model'][li] = val
+                    unchanged(before, snap(), {n for n, e in enumerate(pool) if e['ma'] is A['ma']}, 'setMatrix', step)
+                    check_entry(A, 'setMatrix', step)
+                    if not np.array_equal(np.asarray(A['ma'].data)[li], val):
+                        raise Violation('setMatrix_did_not_write', 'setMatrix', {'index': li}, step)
+                if op['which'] != 'setMatrix':
+                    unchanged(before, snap(), set(), op['which'], step)
+                ctx.probe('index_api_' + op['which'])
             elif k == 'new_identity':
                 # an identity array created now is the identity whatever was done to earlier ones, and is a bystander afterwards
                 e = new_identity(op['space'], 'IdentityMatrixArray()', step)
